@@ -183,6 +183,22 @@ def bool_constructs(rep, known):
     for rn, runner in (("interpreted", celpy.InterpretedRunner), ("compiled", celpy.CompiledRunner)):
         celpy.CELParser.CEL_PARSER = None
         envs[rn] = celpy.Environment(runner_class=runner)
+    # macro results over lists AND maps have the macro's result type, whatever the elements do
+    typed = [('{"a": 1, "b": 2}.filter(k, k != "z")', ct.ListType), ("{}.filter(k, true)", ct.ListType), ("l.filter(x, true)", ct.ListType), ("l.filter(x, false)", ct.ListType),
+             ('{"a": 1}.map(k, k)', ct.ListType), ("l.map(x, x)", ct.ListType), ("[].map(x, x)", ct.ListType), ('{"a": 1}.all(k, true)', ct.BoolType),
+             ('{"a": 1}.exists_one(k, true)', ct.BoolType), ('type({"a": 1}.filter(k, true)) == list', ct.BoolType), ("type(l.filter(x, true)) == list", ct.BoolType),
+             ("type(null) == null_type", ct.BoolType), ("type([null][0]) == null_type", ct.BoolType)]
+    for rn, env in envs.items():
+        for text, want in typed:
+            try:
+                v = env.program(env.compile(text)).evaluate(dict(act))
+                ok, obs = type(v) is want and (not text.startswith("type(") or bool(v)), f"{type(v).__name__} {v!r}"
+            except Exception as ex:
+                ok, obs = False, f"{type(ex).__name__}: {str(ex)[:80]}"
+            o = V.table_obl(rep, f"result-type[{rn}:{text}]", f"celpy.{'InterpretedRunner' if rn == 'interpreted' else 'CompiledRunner'}",
+                            f"the value is an instance of celtypes.{want.__name__}", ok, f"input: {text!r} -> {obs}", kind="B")
+            if not ok:
+                o.replay = {"replayed": True, "confirmed": True, "inputs": {"text": text, "runner": rn}, "observed": obs}
     for rn, env in envs.items():
         for text in exprs:
             try:
